@@ -62,7 +62,9 @@ def run(ctx):
         for ch_ in ast.iter_child_nodes(n_):
             ch_._parent = n_
     ctx.analysed(bg_)
-    ctx.floor('covering relation of the region graph', covering_relation(ctx, bg_, 'region-structure'), 1)
+    from ._generic import minimal_scan
+    ctx.floor('covering relation of the region graph (as a double loop with a no-region-in-between test, or as a scan for minimal supersets)',
+              covering_relation(ctx, bg_, 'region-structure') + minimal_scan(ctx, bg_, 'region-structure'), 1)
     for name_, m_ in sorted(repo.methods(LI, 'LocalInference').items()):
         measurement_keys_kept(ctx, m_, 'projection-order')
 
